@@ -63,4 +63,10 @@ theorem C16_lib1_mutator_changes (o : FOps) :
   show (CratesV1.step (toDetect .s1_6_0) CratesV1.Db.empty (.createRoot [97])).1.crate = _
   decide +kernel
 
+/-- non-vacuity: 24 of the 38 constructors are observers — e.g. a getter through the handle of a track that was never
+created, `snapshot()`, `verify()`, `containing_crates()` — and `observeAll` of them is what `C16_lib1_repeat` speaks about. -/
+example : Call.isObserver (.get 7 .title) = true ∧ Call.isObserver (.snapshot 1) = true ∧ Call.isObserver .verify = true ∧
+    Call.isObserver (.containingCrates 2) = true ∧ Call.isObserver (.trackById 0) = true ∧
+    Call.isObserver (.set 1 .title none) = false ∧ Call.isObserver (.removeTrack 1) = false := by decide
+
 end EngineModel.Properties.C16Lib1
